@@ -82,21 +82,89 @@ func pctEncodeOne(r *rand.Rand, seg string) string {
 	return seg[:i] + fmt.Sprintf(f, seg[i]) + seg[i+1:]
 }
 
-// messyPath renders a clean path in an equivalent unclean form.
-func messyPath(r *rand.Rand, segs []string, variant string) string {
+// climbSegs returns segments to append to a clean path before climbing back with "..": if some route path of the
+// configuration strictly extends the clean path, the extension of one of them (the raw path then runs THROUGH that
+// route's path and ends above it), else one or two segment names of the configuration's vocabulary.
+func (c *ConcCfg) climbSegs(r *rand.Rand, segs []string) ([]string, bool) {
+	clean := "/" + strings.Join(segs, "/")
+	var exts [][]string
+	for _, rp := range c.RoutePaths {
+		if rp == "/" || rp == clean {
+			continue
+		}
+		pre := clean
+		if pre != "/" {
+			pre += "/"
+		}
+		if strings.HasPrefix(rp, pre) {
+			exts = append(exts, strings.Split(strings.TrimPrefix(rp, pre), "/"))
+		}
+	}
+	if len(exts) > 0 {
+		return pick(r, exts), true
+	}
+	toks := []string{"a", "b", "c", "d", "x", "h", "y", "ab", "bc"}
+	n := 1 + r.Intn(2)
+	out := make([]string, n)
+	for i := range out {
+		out[i] = c.Seg[pick(r, toks)]
+	}
+	return out, false
+}
+
+// filler is a segment that a following ".." removes again: a name of the configuration's vocabulary or a made-up one.
+func (c *ConcCfg) filler(r *rand.Rand) string {
+	if r.Intn(2) == 0 {
+		return c.Seg[pick(r, []string{"a", "b", "c", "d", "x", "h", "y", "ab", "bc"})]
+	}
+	return pick(r, []string{"zz", "z1", "qq"})
+}
+
+var encodedDotDot = []string{"%2e%2e", "%2E%2E", ".%2e", "%2E."}
+
+// messyPath renders a clean path in an equivalent unclean form (equivalent under dot-segment removal, empty-segment
+// removal and decoding of percent-encoded unreserved characters).  The raw text is sent verbatim (as `curl
+// --path-as-is` would).  The second result says that the raw path runs through the path of another route.
+func (c *ConcCfg) messyPath(r *rand.Rand, segs []string, variant string) (string, bool) {
+	clean := "/" + strings.Join(segs, "/")
 	if variant == "plain" {
-		return "/" + strings.Join(segs, "/")
+		return clean, false
+	}
+	base := clean
+	if base == "/" {
+		base = ""
+	}
+	switch variant {
+	case "climb", "climbpct", "climbslash":
+		// real segments appended and taken back by a FINAL ".." (no trailing slash unless climbslash)
+		ext, through := c.climbSegs(r, segs)
+		raw := base + "/" + strings.Join(ext, "/")
+		for i := range ext {
+			dd := ".."
+			if variant == "climbpct" && (i == len(ext)-1 || r.Intn(2) == 0) {
+				dd = pick(r, encodedDotDot)
+			}
+			raw += "/" + dd
+		}
+		if variant == "climbslash" {
+			raw += "/"
+		}
+		return raw, through
+	case "enddot":
+		// "." or an empty segment as the final segment(s)
+		return base + pick(r, []string{"/.", "/./.", "//", "/.//", "//.", "/%2e", "/%2E"}), false
 	}
 	if len(segs) == 0 {
 		switch variant {
 		case "dslash":
-			return "//"
+			return "//", false
 		case "dot":
-			return pick(r, []string{"/.", "/./"})
+			return pick(r, []string{"/.", "/./"}), false
 		case "dotdot":
-			return pick(r, []string{"/zz/..", "/zz/../", "/zz/qq/../.."})
+			f, g := c.filler(r), c.filler(r)
+			return pick(r, []string{"/" + f + "/..", "/" + f + "/../", "/" + f + "/" + g + "/../..", "/" + f + "/../" + g + "/.."}), false
 		}
-		return "/"
+		return "/", false
 	}
 	parts := append([]string(nil), segs...)
 	at := r.Intn(len(parts) + 1) // boundary: before parts[at] (len = at the end)
@@ -115,26 +183,29 @@ func messyPath(r *rand.Rand, segs []string, variant string) string {
 	}
 	switch variant {
 	case "tslash":
-		return "/" + strings.Join(parts, "/") + "/"
+		return "/" + strings.Join(parts, "/") + "/", false
 	case "dslash":
-		return ins("/")
+		return ins("/"), false
 	case "dot":
-		return ins("/.")
+		return ins("/."), false
 	case "dotdot":
-		return ins(pick(r, []string{"/zz/..", "/zz/./..", "/z1/z2/../.."}))
+		f, g := c.filler(r), c.filler(r)
+		return ins(pick(r, []string{"/" + f + "/..", "/" + f + "/./..", "/" + f + "/" + g + "/../.."})), false
 	case "pct":
 		i := r.Intn(len(parts))
 		parts[i] = pctEncodeOne(r, parts[i])
-		return "/" + strings.Join(parts, "/")
+		return "/" + strings.Join(parts, "/"), false
 	case "mix":
 		i := r.Intn(len(parts))
 		parts[i] = pctEncodeOne(r, parts[i])
-		return ins(pick(r, []string{"/", "/.", "/zz/.."})) + pick(r, []string{"", "/", "/."})
+		return ins(pick(r, []string{"/", "/.", "/" + c.filler(r) + "/.."})) + pick(r, []string{"", "/", "/."}), false
 	}
-	return "/" + strings.Join(parts, "/")
+	return "/" + strings.Join(parts, "/"), false
 }
 
-var pathVariants = []string{"tslash", "dslash", "dot", "dotdot", "pct", "mix"}
+// climb is listed twice: a final ".." above another route's path is the rendering that separates a complete
+// dot-segment removal from a partial one
+var pathVariants = []string{"tslash", "dslash", "dot", "dotdot", "pct", "mix", "climb", "climb", "climbpct", "climbslash", "enddot"}
 
 func caseMix(r *rand.Rand, s string) string {
 	b := []byte(s)
@@ -288,7 +359,10 @@ func (c *ConcCfg) Build(q Req, rseed int64, token string, mask []string) *ConcRe
 	}
 	clean := "/" + strings.Join(segs, "/")
 	rp := rng(rseed, "path")
-	target := messyPath(rp, segs, variant("path", rp, pathVariants))
+	target, through := c.messyPath(rp, segs, variant("path", rp, pathVariants))
+	if through {
+		vr["path"] += "-route" // the raw path runs through the path of another route of the configuration
+	}
 
 	// ---- query
 	rq := rng(rseed, "q")
